@@ -49,3 +49,19 @@ func TempPath(name string) string {
 	tempDirs = append(tempDirs, dir)
 	return filepath.Join(dir, name)
 }
+
+// SetPutFault arms a storage fault: the k-th bbolt Bucket.Put from now fails
+// with an injected error (k <= 0 disarms). Natively this drives the countdown
+// overlaid at bbolt's own Put failpoint; under the executor the call is
+// intercepted and arms the same countdown in the mbolt model.
+func SetPutFault(k int) {
+	bbolt.VerifPutFaultCountdown = k
+	bbolt.VerifPutFaultFired = false
+}
+
+// DisarmPutFault cancels a fault that has not been delivered (the record of a
+// delivered one stays).
+func DisarmPutFault() { bbolt.VerifPutFaultCountdown = 0 }
+
+// PutFaultFired: whether the armed fault has been delivered.
+func PutFaultFired() bool { return bbolt.VerifPutFaultFired }
